@@ -795,17 +795,56 @@ func (p *Prog) recvAccounting(owner string) map[string]bool {
 			}
 		}
 	}
+	// wrappers: a function in which a call of an accounting function dominates
+	// every return, except returns taken because the amount is <= 0
 	for round := 0; round < 2; round++ {
-		for name, fd := range p.funcDecls {
-			if out[name] || fd.Body == nil {
+		for _, f := range p.allFuncs() {
+			name := p.fname(f)
+			if out[name] || f.Pkg != p.SPkg {
 				continue
 			}
-			for _, s := range fd.Body.List {
-				if es, ok := s.(*ast.ExprStmt); ok {
-					if c, ok := es.X.(*ast.CallExpr); ok && out[p.calleeOf(c)] {
-						out[name] = true
+			var calls []ssa.Instruction
+			for _, cs := range p.callsIn(f) {
+				if _, isCall := cs.Instr.(*ssa.Call); isCall && out[cs.Callee] {
+					calls = append(calls, cs.Instr)
+				}
+			}
+			if len(calls) == 0 {
+				continue
+			}
+			all := true
+			for _, b := range f.Blocks {
+				if b == f.Recover {
+					continue
+				}
+				for _, in := range b.Instrs {
+					ret, ok := in.(*ssa.Return)
+					if !ok {
+						continue
+					}
+					covered := false
+					for _, c := range calls {
+						if instrDominates(c, ret) {
+							covered = true
+						}
+					}
+					if !covered {
+						for _, ft := range p.factsAt(ret) {
+							d := p.vdescN(ft.Cond, 2)
+							if ft.Val && strings.HasSuffix(d, " <= 0)") {
+								if _, isParam := ft.Cond.(*ssa.BinOp).X.(*ssa.Parameter); isParam {
+									covered = true
+								}
+							}
+						}
+					}
+					if !covered {
+						all = false
 					}
 				}
+			}
+			if all {
+				out[name] = true
 			}
 		}
 	}
